@@ -35,7 +35,12 @@ def build_index(dense, common, readonly=False):
             if v == common:
                 continue
             arr = numpy.nonzero(col == v)[0].astype(numpy.uint32)
-            if readonly:
+            if readonly == "strided":
+                # a legal non-contiguous view (e.g. a column of a 2-D uint32 table)
+                big = numpy.full(2 * len(arr) + 1, 0xDEADBEEF, dtype=numpy.uint32)
+                big[1::2][: len(arr)] = arr
+                arr = big[1::2][: len(arr)]
+            elif readonly:
                 arr.setflags(write=False)
             entries[(int(v),) + hi] = arr
     return iindex(entries, int(common) if not isinstance(common, str) else common,
@@ -67,11 +72,11 @@ def _prod(xs):
 
 
 @st.composite
-def dim_specs(draw, N, tails, big_ok=False):
+def dim_specs(draw, N, tails, big_ok=False, big_extents=None):
     tail = list(draw(st.sampled_from(tails)))
     size = N * _prod(tail)
-    if big_ok and draw(st.integers(0, 5)) == 0:
-        e = draw(st.sampled_from(BIG_EXTENTS))
+    if big_ok and (big_extents is not None or draw(st.integers(0, 5)) == 0):
+        e = draw(st.sampled_from(big_extents or BIG_EXTENTS))
         palette = [0, 1, e - 2, e - 1]
         raw = draw(st.lists(st.integers(0, 7), min_size=size, max_size=size))
         data = [palette[x] if x < 4 else 0 for x in raw]
@@ -88,7 +93,7 @@ def dim_specs(draw, N, tails, big_ok=False):
 
 @st.composite
 def cube_specs(draw, max_nd=3, min_nd=0, max_n=40, tails=((), (), (2,), (3,), (1,), (2, 2)),
-               big_ok=False, min_n=0, force_multi=False):
+               big_ok=False, min_n=0, force_multi=False, big_extents=None):
     N = draw(st.one_of(st.integers(min_n, min(max_n, max(min_n, 3))), st.integers(min_n, max_n)))
     nd = draw(st.integers(min_nd, max_nd))
     dims = []
@@ -98,7 +103,7 @@ def cube_specs(draw, max_nd=3, min_nd=0, max_n=40, tails=((), (), (2,), (3,), (1
         t = [x for x in tails if scaffold * _prod(x) <= 24] or [()]
         if force_multi and i == 0:
             t = [x for x in t if x] or t
-        spec = draw(dim_specs(N, t, big_ok=big_ok and nbig == 0 and nd <= 2))
+        spec = draw(dim_specs(N, t, big_ok=big_ok and nbig == 0 and nd <= 2, big_extents=big_extents))
         nbig += spec["big"]
         dims.append(spec)
     if nbig:
@@ -110,7 +115,7 @@ def cube_specs(draw, max_nd=3, min_nd=0, max_n=40, tails=((), (), (2,), (3,), (1
     mode = draw(st.sampled_from(["inferred", "exact", "padded"]))
     pads = draw(st.lists(st.integers(1, 3), min_size=nd, max_size=nd))
     return {"N": N, "dims": dims, "shape_mode": mode, "pads": pads,
-            "readonly": draw(st.integers(0, 3)) == 0}
+            "readonly": draw(st.sampled_from([False, False, False, True, "strided"]))}
 
 
 def fact_specs(N, dtypes=("float", "int"), max_k=3, dyadic=True):
@@ -425,7 +430,7 @@ def make_ccube(case, dense=None, commons=None):
     dense = dense_dims(case) if dense is None else dense
     commons = [d["common"] for d in case["dims"]] if commons is None else commons
     shape_arg, _ = cube_shape(case, dense)
-    idxs = [build_index(a, c, readonly=bool(case.get("readonly"))) for a, c in zip(dense, commons)]
+    idxs = [build_index(a, c, readonly=case.get("readonly", False)) for a, c in zip(dense, commons)]
     return ccube(idxs, shape_arg), idxs
 
 
